@@ -439,7 +439,6 @@ class SymEval(object):
       for x in ast.walk(cp):
         if isinstance(x, ast.Call) and id(x) not in inside:
           if e2 is None:
-            e2 = overlay(env) if not isinstance(env, dict) or True else dict(env)
             try:
               e2 = dict(env)
             except Exception:
